@@ -16,6 +16,7 @@ import RpyModel.Drv.C18
 import RpyModel.Drv.C12
 import RpyModel.Drv.C11
 import RpyModel.Drv.C13
+import RpyModel.Drv.C14
 open Lean
 
 def dispatch (R : Type) [Num R] [Inhabited R] [NatCast R] (kind : String) (j : Json) : Except String Json :=
@@ -45,6 +46,7 @@ def dispatch (R : Type) [Num R] [Inhabited R] [NatCast R] (kind : String) (j : J
   | "matgen_scale" => Drv.handleMatgenScale R j
   | "matgen_struct" => Drv.handleMatgenStruct j
   | "matgen_partial" => Drv.handleMatgenPartial j
+  | "seeds" => Drv.handleSeeds j
   | _ => throw s!"unknown kind {kind}"
 
 def handle (line : String) : String :=
